@@ -92,8 +92,14 @@ impl<'a> ser::Serializer for Rec<'a> {
         Ok(())
     }
     other!(serialize_bool, bool);
-    other!(serialize_i16, i16);
-    other!(serialize_i32, i32);
+    fn serialize_i16(self, v: i16) -> Result<(), Err_> {
+        self.out.push(Tok::I64(v as i64));
+        Ok(())
+    }
+    fn serialize_i32(self, v: i32) -> Result<(), Err_> {
+        self.out.push(Tok::I64(v as i64));
+        Ok(())
+    }
     other!(serialize_u8, u8);
     other!(serialize_u16, u16);
     other!(serialize_f32, f32);
@@ -303,6 +309,23 @@ fn replay<T: for<'d> Deserialize<'d>>(toks: &[Tok], hint: Hint) -> Result<T, Str
     Ok(v)
 }
 
+/// The emitted token stream against the expected one, up to what the property leaves open: the sequence
+/// length may be declared (then it must be the number of digits emitted) or left undeclared, and the sign may
+/// be written through any signed integer width; the digits themselves must be u32 tokens.
+fn same_stream(got: &Out<Result<Vec<Tok>, String>>, want: &[Tok]) -> bool {
+    let got = match got {
+        Out::Ret(Ok(g)) => g,
+        _ => return false,
+    };
+    if got.len() != want.len() {
+        return false;
+    }
+    got.iter().zip(want.iter()).all(|(g, w)| match (g, w) {
+        (Tok::Seq(None), Tok::Seq(Some(_))) => true,
+        (Tok::I64(a), Tok::I8(b)) => *a == *b as i64,
+        (a, b) => a == b,
+    })
+}
 fn seq_tokens(w: &[u32], declared: Option<usize>) -> Vec<Tok> {
     let mut t = vec![Tok::Seq(declared)];
     t.extend(w.iter().map(|&x| Tok::U32(x)));
@@ -324,7 +347,7 @@ fn ser_value(ctx: &mut Ctx, v: &Int) {
         let u = bu_nat(&v.mag);
         let r = call(ctx, || record(&u));
         ctx.compared(1);
-        if r != Out::Ret(Ok(want_u.clone())) {
+        if !same_stream(&r, &want_u) {
             ctx.viol(format!("serialize BigUint v={}", v.to_hex()), "token stream is not seq(len){base-2^32 digits, least significant first, no trailing zero}", args(), format!("{:?}", want_u), format!("{:?}", r));
         }
         // round trip through the recorder with every hint, and through JSON
@@ -354,7 +377,7 @@ fn ser_value(ctx: &mut Ctx, v: &Int) {
     want_i.push(Tok::TupleEnd);
     let r = call(ctx, || record(&x));
     ctx.compared(1);
-    if r != Out::Ret(Ok(want_i.clone())) {
+    if !same_stream(&r, &want_i) {
         ctx.viol(format!("serialize BigInt v={}", v.to_hex()), "token stream is not tuple(2){i8 sign, seq of base-2^32 digits}", args(), format!("{:?}", want_i), format!("{:?}", r));
     }
     if let Out::Ret(Ok(toks)) = &r {
@@ -590,8 +613,9 @@ fn body(ctx: &mut Ctx) {
                 if pat != 2 {
                     let u = bu_nat(&mag);
                     let want = seq_tokens(&mag.to_u32_digits(), Some(mag.to_u32_digits().len()));
-                    let r = call(ctx, || record(&u).map(|t| t == want));
+                    let r = call(ctx, || record(&u));
                     ctx.compared(1);
+                    let r = if same_stream(&r, &want) { Out::Ret(Ok::<bool, String>(true)) } else { Out::Ret(Ok(false)) };
                     if r != Out::Ret(Ok(true)) {
                         ctx.viol(format!("serialize long BigUint len={} pattern={}", l, pat), "long value not serialized as exactly its base-2^32 digits", vec![], "its digits".into(), format!("{:?}", r.map_dbg()));
                     }
